@@ -36,6 +36,14 @@
 From Asynkit Require Import Base.Prelude Base.Obs Coro.Tree Coro.Native Coro.AsyncGen.
 Open Scope Z_scope.
 
+(* ------------------------------------------------------------------ ayield *)
+(* g.ayield(d):   async def ayield(self, value): return await self.monitor.oob(value)
+   where oob() is a generator-based coroutine whose frame is [yield_ d Ret Raise] *)
+Definition ayield (d : val) : coro := await_ KGen (yield_ d Ret Raise) Ret Raise.
+
+(* ... awaited from inside n pass-through coroutines `async def f(v): return await g(v)` *)
+Definition ayield_frames (n : nat) (d : val) : coro := Nat.iter n native_await (ayield d).
+
 (* ------------------------------------------------- the body coroutine object *)
 Inductive cres :=
 | CROob (d : val)        (* came back from a marked suspension: Monitor.oob(d) *)
